@@ -88,7 +88,7 @@ pub fn make_case(r: &mut Sm, idx: usize, exhaustive: Option<(usize, usize)>) -> 
         None => n_samples.max(1).min(cap),
     };
     let mut start2 = rand_state(r, &spec);
-    let goal2 = GoalSpec { centre: rand_state(r, &spec), radius: problem.goal.radius, mode: crate::world::GoalMode::Centre, fail_at: None };
+    let goal2 = GoalSpec { centre: rand_state(r, &spec), radius: problem.goal.radius, mode: crate::world::GoalMode::Centre, fail_at: None, window: None };
     // exact ties: radius = distance between two scripted samples; sometimes the second start is
     // a scripted sample too
     let mut radius_from = None;
